@@ -82,6 +82,7 @@ func c05(c *core.Ctx) map[string]interface{} {
 	r5pure(c)
 	r5abort(c)
 	r1snn(c)
+	r16cred(c) // the subscription the derivation reads holds K, OPc and OP in their own fields (shared with C16)
 	include(c, "C15")
 	return nil
 }
